@@ -458,10 +458,10 @@ Proof.
     + intros x Hx. cbn. unfold upd. eqb_cases x u; [lia | reflexivity].
     + intros x Hlt. left. split; [cbn; lia|]. split; [auto|].
       rewrite enq_with_sub by assumption. discriminate.
-    + intros o. rewrite Hwn. cbn [rc staged stage set_staged rc_inc set_rc sref].
+    + intros o. rewrite Hwn. cbn [rc staged stage set_staged rc_inc set_rc sref add_log].
       rewrite hsum_cons, upd_ind. unfold hn at 1. cbn [href]. rewrite ind_sym.
-      change (Qc (stage (rc_inc g u) (HelperBody u (tw_of g u))) o) with (Qc g o).
-      change (Ht (stage (rc_inc g u) (HelperBody u (tw_of g u))) o) with (Ht g o).
+      change (Qc (add_log (stage (rc_inc g u) (HelperBody u (tw_of g u))) (EvHelp (gid g u) (tw_of g u))) o) with (Qc g o).
+      change (Ht (add_log (stage (rc_inc g u) (HelperBody u (tw_of g u))) (EvHelp (gid g u) (tw_of g u))) o) with (Ht g o).
       eqb_cases o u; lia.
   - (* SCas *)
     cbn in Hs. destruct Hs as [Hun Hprev].
@@ -629,7 +629,7 @@ Proof.
         intros x. split; [left; apply tw_of_set_todo|].
         cbn. unfold upd. eqb_cases x t; [right | left; reflexivity].
         split; [exact Hnt|]. intros o0. cbn. rewrite Etd. reflexivity. }
-      destruct ac as [| | | |b now|u]; cbn [fst snd] in *.
+      destruct ac as [| | | |b now|u|v]; cbn [fst snd] in *.
       * apply Hsame; rewrite Ha; reflexivity.
       * apply Hsame; rewrite Ha; reflexivity.
       * apply Hsame; rewrite Ha; reflexivity.
@@ -649,6 +649,7 @@ Proof.
            intros x. split; [left; apply tw_of_set_todo|].
            cbn. unfold upd. eqb_cases x t; [right | left; reflexivity].
            split; [exact Hnt|]. intros o0. cbn. rewrite Etd. reflexivity.
+      * apply Hsame; rewrite Ha; reflexivity.
       * apply Hsame; rewrite Ha; reflexivity.
     + (* helper: set_active_state reads the word *)
       assert (Hg : forall gg l', tasks gg = tasks (set_todo g t (HelperRun u)) -> ntasks gg = ntasks g ->
@@ -768,7 +769,7 @@ Proof.
     2-5: match goal with |- context [sub_step ?gg ?s] =>
            assert (Hs := sub_step_RInv gg ls a _ HI HR Ha I); cbn [sub_of with_sub] in Hs;
            destruct (sub_step gg s) as [g' s']; exact Hs end.
-    destruct acts as [|[| | | |b now|u] r]; cbn [fst snd] in *;
+    destruct acts as [|[| | | |b now|u|v] r]; cbn [fst snd] in *;
       try (same_tac HI HR; rewrite Ha; reflexivity).
     destruct now.
     + apply RInv_new with (g := g); auto; try reflexivity; try (rewrite Ha; reflexivity);
